@@ -226,14 +226,13 @@ def getArgsSelTC (c : Content) (rows : List (Rat × List (Name × Rat))) (f : Ar
 pop; Python reads `dependent[flux]` / `args.loc[flux names]` after it.  The two agree unless a stoichiometry
 KEY of a surrogate is not bound in the popped dict (it is a data-set name, or no output at all) — then every
 entry point that looks the fluxes up raises `KeyError(flux)`.  `guardFlux` adds exactly that: the answer is
-kept iff `get_fluxes` (= `getArgsSel … fluxFlags`, which selects from the popped dict) answers. -/
+kept iff `get_fluxes` (= `getArgsSel … fluxFlags`, which selects from the popped dict) answers, else its error. -/
 def guardFlux {α} (c : Content) (vars : Option (List (Name × Rat))) (t : Rat) (r : Except Err α) :
     Except Err α :=
-  match r with
+  -- the flux lookup comes right after `_create_cache` / `_get_args` (whose errors `getArgsSel` shares) and
+  -- before anything else the entry point does (computed coefficients, row selection)
+  match getArgsSel c vars t fluxFlags with
   | .error e => .error e
-  | .ok a =>
-    match getArgsSel c vars t fluxFlags with
-    | .error e => .error e
-    | .ok _ => .ok a
+  | .ok _ => r
 
 end Mxl
